@@ -300,21 +300,21 @@ PROPS["C09"] = {
           bounds="unwind 8; 3 steps (add/remove), 2 owners"),
         H("c09::c09_robust_history_cap3", covers=4, timeout=5400, mem_gb=12, tiers=("thorough",), unwindset=_ROBUST_SEQ,
           what="robust set, capacity 3", bounds="unwind 5; 4 steps"),
-        H("c09::sched::c09_s_uis_race_cap2", crate="hs", covers=2, timeout=2400, mem_gb=14, tiers=("quick",),
+        H("c09::sched::c09_s_uis_race_cap2", crate="hs", covers=2, timeout=2400, mem_gb=14, tiers=("quick", "thorough"),
           what="two threads racing acquire/release on the real free list; exclusivity, bounds, legitimate failures, "
                "leak freedom; ABA shape witnessed", bounds="unwind 5; capacity 2, 1 outer operation (acquire, or release of an index held before the race) preempted before any of its atomic operations, up to 2 inner operations (one may run before)"),
-        H("c09::sched::c09_s_uis_race_cap2_lock", crate="hs", covers=2, timeout=2400, mem_gb=14, tiers=("quick",),
+        H("c09::sched::c09_s_uis_race_cap2_lock", crate="hs", covers=2, timeout=2400, mem_gb=14, tiers=("quick", "thorough"),
           what="same race with every release in LockIfLastIndex mode: Locked reported iff the set is locked afterwards, "
                "no acquire succeeds after a reported lock, the last release locks",
           bounds="unwind 5; capacity 2, 1 outer operation (acquire, or release of an index held before the race) preempted before any of its atomic operations, up to 2 inner operations (one may run before)"),
         H("c09::sched::c09_s_uis_race_cap2_lock_deep", crate="hs", covers=2, timeout=7200, mem_gb=30, tiers=("thorough",),
           what="lock-if-last race, 1 outer / 3 inner operations, preemption also before cell accesses", bounds="unwind 7"),
-        H("c09::sched::c09_s_robust_recover_vs_recover", crate="hs", covers=2, timeout=2400, mem_gb=12, tiers=("quick",),
+        H("c09::sched::c09_s_robust_recover_vs_recover", crate="hs", covers=2, timeout=3000, mem_gb=12, tiers=("quick", "thorough"),
           unwindset=_ROBUST_RACE,
           what="robust set: recovery of a dead owner preempted at every atomic operation while a second recoverer and an "
                "acquiring live owner run up to 2 complete operations in the gaps: exactly the dead owner's indices, each "
                "handed to exactly one recoverer, an index acquired in between is never taken away", bounds="unwind 5; capacity 2, dead owner holds 1-2 indices, 2 inner operations"),
-        H("c09::sched::c09_s_robust_recover_vs_owner", crate="hs", covers=2, timeout=2400, mem_gb=12, tiers=("quick",),
+        H("c09::sched::c09_s_robust_recover_vs_owner", crate="hs", covers=2, timeout=3600, mem_gb=12, tiers=("thorough",),
           unwindset=_ROBUST_RACE,
           what="same recovery while a live owner acquires / releases in the gaps: the live owner keeps what it acquires, "
                "recovery never returns one of its indices, its releases are accepted",
@@ -326,7 +326,7 @@ PROPS["C09"] = {
         H("c09::sched::c09_s_robust_recover_race_deep", crate="hs", covers=2, timeout=7200, mem_gb=16, tiers=("thorough",),
           unwindset=_ROBUST_RACE,
           what="robust recovery race with 3 inner operations", bounds="unwind 6"),
-        H("c09::sched::c09_s_uis_race_cap1", crate="hs", covers=1, timeout=1800, mem_gb=8, tiers=("quick",),
+        H("c09::sched::c09_s_uis_race_cap1", crate="hs", covers=1, timeout=3600, mem_gb=8, tiers=("thorough",),
           what="same, capacity 1", bounds="unwind 6; 1 outer / 2 inner operations"),
         H("c09::sched::c09_s_uis_race_cap3_deep", crate="hs", covers=2, timeout=7200, mem_gb=30, tiers=("thorough",),
           what="capacity 2, 1 outer / 3 inner operations, preemption also before free-list cell accesses", bounds="unwind 7"),
@@ -423,13 +423,13 @@ PROPS["C19"]["harnesses"] += [
       tiers=("quick",), known="F-C19-1",
       what="the class excluded above: one prefix is a proper prefix of the other (open known finding F-C19-1)",
       bounds="unwind 12; prefix lengths 1/2, names of 2 bytes"),
-    H("cal::c19iso::c19_root_direct_own_and_unrelated", features=CAL, covers=0, timeout=2400, mem_gb=14, tiers=("quick",),
+    H("cal::c19iso::c19_root_direct_own_and_unrelated", features=CAL, covers=0, timeout=5400, mem_gb=10, tiers=("thorough",),
       what="extract_name_from_path: own root recognised (name round-trips), unrelated root never matches", bounds=_ISO_B),
-    H("cal::c19iso::c19_root_direct_nested", features=CAL, covers=0, timeout=2400, mem_gb=14, tiers=("quick",),
+    H("cal::c19iso::c19_root_direct_nested", features=CAL, covers=0, timeout=5400, mem_gb=10, tiers=("thorough",),
       what="a nested root never matches, in either direction", bounds=_ISO_B),
-    H("cal::c19iso::c19_root_direct_sibling", features=CAL, covers=0, timeout=2400, mem_gb=14, tiers=("quick",),
+    H("cal::c19iso::c19_root_direct_sibling", features=CAL, covers=0, timeout=5400, mem_gb=10, tiers=("thorough",),
       what="a sibling root that is a string prefix (/r vs /rr) never matches", bounds=_ISO_B),
-    H("cal::c19iso::c19_root_direct_same_spelling", features=CAL, covers=0, timeout=2400, mem_gb=14, tiers=("quick",),
+    H("cal::c19iso::c19_root_direct_same_spelling", features=CAL, covers=0, timeout=5400, mem_gb=10, tiers=("thorough",),
       what="an equivalent spelling of the root (/r/) is the same domain", bounds=_ISO_B),
     # thorough tier: the same statements through path_for + FilePath::file_name (25-30 M variables each)
     H("cal::c19iso::c19_domain_isolation", features=CAL, covers=2, timeout=5400, mem_gb=30, tiers=("thorough",),
@@ -489,12 +489,16 @@ for (n, what) in [
     ("c13_q_forced_removal_sender_after_receiver_left", "receiver leaves, then remove_sender for the dead sender is the "
                                                         "last one out: destroyed exactly once"),
 ]:
-    _c13.append(H("cal::conn::" + n, features=CAL, unwindset=_CONN_UW, covers=0, timeout=2400, mem_gb=14, tiers=("quick",),
+    # every attach builds the complete management segment (~17 M variables for two attaches, 20 GB, ~19 min): the
+    # quick tier runs the two cases that involve the most of the protocol, all slices run in the thorough tier
+    _q = n in ("c13_q_mismatch_buffer_same_role", "c13_q_race_detach_after_registration_mismatch")
+    _c13.append(H("cal::conn::" + n, features=CAL, unwindset=_CONN_UW, covers=0, timeout=3600, mem_gb=21,
+                  tiers=("quick", "thorough") if _q else ("thorough",),
                   what=what, bounds="unwind 6; one concrete case, 2-3 attach operations"))
 for n in ["c13_t_mismatch_buffer_other_role", "c13_t_mismatch_overflow_other_role", "c13_t_mismatch_chunks_other_role",
           "c13_t_mismatch_segments_other_role", "c13_t_mismatch_channels_same_role",
           "c13_t_race_detach_before_registration_mismatch"]:
-    _c13.append(H("cal::conn::" + n, features=CAL, unwindset=_CONN_UW, covers=0, timeout=3600, mem_gb=14, tiers=("thorough",),
+    _c13.append(H("cal::conn::" + n, features=CAL, unwindset=_CONN_UW, covers=0, timeout=3600, mem_gb=21, tiers=("thorough",),
                   what="further concrete cases of the mismatch / race family", bounds="unwind 6; one concrete case"))
 # the unsliced harnesses (symbolic case selection, 3-4 attach operations): 25-40 M variables, thorough tier only
 _c13 += [
@@ -795,13 +799,17 @@ PROPS["C12"].update({
 })
 PROPS["C13"].update({
     "level_text": _BMC + ". Real zero_copy_connection::common Builder/Sender/Receiver over an in-memory DynamicStorage "
-                  "(KStorage): second attach refused, every drop order, forced removal, each single mismatching "
-                  "parameter, and an attach racing the teardown at the two points where another process can act: "
-                  "destroyed exactly once by the last one out, never under an attached role, racing attach refused or "
-                  "on a live resource.",
-    "level_note": "one connection, buffer 1 / borrow 1 / 1 chunk; the storage is a model of the DynamicStorage contract "
-                  "(posix shared memory / files are outside); races are the hook points of the storage model, not "
-                  "every atomic operation",
+                  "(KStorage).  Quick tier, two concrete cases: a second sender with a mismatching buffer size is refused "
+                  "as already connected without touching the attached sender's role (its detach then destroys the "
+                  "resource exactly once); the sender detaching right after a mismatching receiver registered makes the "
+                  "refused attacher the last one out, which destroys the resource exactly once.  Thorough tier: all "
+                  "slices (drop orders, second attach, single role + re-create, every mismatching parameter, forced "
+                  "removal, attach racing the teardown before / after registration) and the unsliced harnesses with "
+                  "symbolic case selection.",
+    "level_note": "one connection, buffer 1 / borrow 1 / 1 chunk / 1 channel; every attach costs ~10 M SAT variables, so "
+                  "the quick tier is two cases of ~19 min / 20 GB; the storage is a model of the DynamicStorage contract "
+                  "(posix shared memory / files are outside); races are the two hook points of the storage model where "
+                  "another process can act, not every atomic operation",
 })
 PROPS["C14"].update({
     "level_text": _BMC + ". For each relocatable structure: a symbolic operation history in which the structure is "
@@ -812,7 +820,8 @@ PROPS["C14"].update({
 PROPS["C19"].update({
     "level_note": "strings <= 4 bytes; the specification predicates in c19.rs are trusted; ServiceName / NodeName "
                   "construction is included (feature iox2), config files and real directory listing are outside the "
-                  "claim; open finding F-C19-1 (prefix of a prefix) is reported as KNOWN-FINDING",
+                  "claim; root-path isolation (extract_name_from_path) is thorough tier only (30+ min per case); open finding "
+                  "F-C19-1 (prefix of a prefix) is reported as KNOWN-FINDING",
 })
 
 # properties whose checks are still being stabilised are not claimed in MANIFEST.json yet
